@@ -3,6 +3,7 @@ package v1
 // Replay and bounded stand-in harness of /verif for package config/v1. Injected with `go test -overlay`; never written to /repo.
 
 import (
+	"encoding/base64"
 	"encoding/json"
 	"fmt"
 	"os"
@@ -143,3 +144,42 @@ func TestVerifBoundedValidity(t *testing.T) {
 	}
 	fmt.Printf("VERIF-BOUNDED: ok cases=%d\n", n)
 }
+
+// TestVerifBoundedRaw: !binary payloads of every length 0..1100 and a few large ones, !empty, !null, garbage.
+func TestVerifBoundedRaw(t *testing.T) {
+	n := 0
+	lens := []int{}
+	for i := 0; i <= 1100; i++ {
+		lens = append(lens, i)
+	}
+	lens = append(lens, 2000, 4096, 65536)
+	for _, l := range lens {
+		payload := make([]byte, l)
+		for i := range payload {
+			payload[i] = byte(i*7 + l)
+		}
+		got, err := readRawString("!binary:" + vfB64(payload))
+		n++
+		if err != nil || string(got) != string(payload) {
+			fmt.Printf("VERIF-BOUNDED: violation !binary payload of %d bytes read back as %d bytes (err %v)\n", l, len(got), err)
+			return
+		}
+	}
+	if b, err := readRawString("!empty"); err != nil || len(b) != 0 {
+		fmt.Printf("VERIF-BOUNDED: violation !empty gives %v %v\n", b, err)
+		return
+	}
+	if b, err := readRawString("!null"); err != nil || len(b) != 2 || b[0] != 5 || b[1] != 0 {
+		fmt.Printf("VERIF-BOUNDED: violation !null gives %v %v\n", b, err)
+		return
+	}
+	for _, bad := range []string{"", "x", "!binary", "!binary:@@", "!nil"} {
+		if _, err := readRawString(bad); err == nil && bad != "!binary:" {
+			fmt.Printf("VERIF-BOUNDED: violation %q accepted\n", bad)
+			return
+		}
+	}
+	fmt.Printf("VERIF-BOUNDED: ok cases=%d\n", n+7)
+}
+
+func vfB64(b []byte) string { return base64.StdEncoding.EncodeToString(b) }
